@@ -1886,6 +1886,10 @@ class PrepareAst:
             return self.apply(inp.value)
 
         if isinstance(inp, ast.Match):
+            assert (
+                self._context is ContextType.SEQUENTIAL
+            ), "match statements are only allowed in sequential contexts"
+
             subject = cast(out.Expression, self.apply(inp.subject))
 
             cases: list[typing.Tuple[out.Expression, out.CodeBlock]] = []
